@@ -168,7 +168,8 @@ def run_history(sc, ctx, want, out):
             if kd == 'P' and isinstance(x, Proved): raise IllTyped('expected Pattern')
 
     def conc(x):
-        return B.py_expand(x.conclusion)
+        # C07 judges the denoted pattern: notation arguments that the definition does not use are not part of it
+        return B.py_expand(x.conclusion, lazy=True)
 
     def compare_state(opname):
         # (a) stack (minus stale published entries), (b) memory, (c) claims
@@ -279,8 +280,8 @@ def run_history(sc, ctx, want, out):
                     if n >= 3: out.probe('instantiate_arity_ge3')
                     if 'C07' in want:
                         try:
-                            C = conc(v[-1]) if name == 'instantiate' else B.py_expand(v[-1])
-                            pe = [B.py_expand(p) for p in plugs]
+                            C = conc(v[-1]) if name == 'instantiate' else B.py_expand(v[-1], lazy=True)
+                            pe = [B.py_expand(p, lazy=True) for p in plugs]
                             try:
                                 verdict = (True, T.instantiate(C, keys, pe))
                             except T.Abort as ex:
@@ -338,7 +339,7 @@ def run_history(sc, ctx, want, out):
                     stopped = 'violation'
                 else:
                     try:
-                        got = B.py_expand(ret.conclusion if isinstance(ret, Proved) else ret)
+                        got = B.py_expand(ret.conclusion if isinstance(ret, Proved) else ret, lazy=True)
                     except T.Abort as ex:
                         got = ('illegal', str(ex))
                     if got != verdict[1]:
